@@ -269,6 +269,58 @@ func c20Harness(n int, contents []ycContent, withHash bool) mc.Harness {
 	}
 }
 
+// c20NonSquare: an image the conversions cannot handle must not be hashed from the previous image's luminance.
+func c20NonSquare(x *mc.Exec) {
+	ri := x.All("subsampling", len(c20Ratios))
+	hi := x.All("hash-function", 4)
+	shapes := [][2]int{{64, 48}, {64, 63}, {64, 65}, {64, 128}, {48, 64}, {65, 64}, {256, 255}, {256, 257}, {255, 256}}
+	si := x.All("shape", len(shapes))
+	w, h := shapes[si][0], shapes[si][1]
+	hf := &hashSizes[hi/2]
+	n := []int{64, 256}[hi/2]
+	if (w != n && h != n) || (w == n && h == n) {
+		x.Trivial = true
+		x.Outcome = "n/a"
+		return
+	}
+	call := hf.primary
+	name := hf.name
+	if hi%2 == 1 {
+		call, name = hf.alt, hf.name+"Alt"
+	}
+	x.InputID = hashBytes([]byte{byte(ri), byte(hi), byte(si), 0x21})
+	hashPristine()
+	// two different valid images: what the pooled buffer holds differs, the verdict on the odd image must not
+	cs := contents(n, map[int]int{64: 8, 256: 16}[n])
+	img := image.NewYCbCr(image.Rect(0, 0, w, h), c20Ratios[ri])
+	for i := range img.Y {
+		img.Y[i] = byte(37 + i*13)
+	}
+	for i := range img.Cb {
+		img.Cb[i], img.Cr[i] = byte(90+i*7), byte(200-i*3)
+	}
+	var outs [2]string
+	for k := 0; k < 2; k++ {
+		hashPristine()
+		prev := buildImage(kGray, 0, n, cs[[]int{3, len(cs) - 2}[k]])
+		if pi := mc.Guard(func() { call(prev) }); pi != nil {
+			return
+		}
+		var bits []bool
+		var err error
+		if pi := mc.Guard(func() { bits, err = call(img) }); pi != nil {
+			x.Fail("mismatch|"+name+"|panic on a non-square YCbCr image", fmt.Sprintf("%dx%d %s: %s", w, h, ratioName(c20Ratios[ri]), pi.Value), nil)
+			return
+		}
+		outs[k] = fmt.Sprintf("%s/%v", bitsHex(bits), err != nil)
+	}
+	x.Outcome = outs[0]
+	if outs[0] != outs[1] {
+		x.Fail("mismatch|"+name+"|a non-square YCbCr image is hashed from what the pooled buffer held",
+			fmt.Sprintf("%dx%d %s image: after one valid hash the call returns %s, after another %s", w, h, ratioName(c20Ratios[ri]), outs[0], outs[1]), nil)
+	}
+}
+
 func init() {
 	register(&mc.Check{
 		Property: "C20",
@@ -292,6 +344,8 @@ func init() {
 				sp = append(sp, mc.Space{Name: "layouts-256", H: c20Harness(256, sub, false), NoLevels: true, Isolate: true, SplitDepth: 1,
 					Rule: "256x256: 7 contents x the same layout product (conversions only)"})
 			}
+			sp = append(sp, mc.Space{Name: "non-square-ycbcr", H: c20NonSquare, NoLevels: true, Isolate: true,
+				Rule: "YCbCr images with one side equal to the transform size and the other not (48, 63, 65, 128 against 64; 255, 257 against 256) x 6 subsampling ratios x the four hash functions, after a valid hash has left its luminance in the pooled buffer: the gray conversions handle square images only, so such an image is either rejected or hashed from its own pixels, never from what the buffer held"})
 			pb := 2
 			if tier == "thorough" {
 				pb = 3
